@@ -347,9 +347,16 @@ pub(crate) fn check_repl_executable(case: &Json, stats: &mut Stats) -> Verdict {
             _ => return Verdict::Pass,
         }
     }
+    // when every input yields a value the inputs go in as they are (consecutive identical inputs stay
+    // consecutive) and the answers are the lines of the output; otherwise a marker line follows each input
+    let plain = case["markers"].as_bool() != Some(true) && expected.iter().all(Option::is_some);
     let mut input = String::new();
     for (k, t) in texts.iter().enumerate() {
-        input += &format!("{t}\n\"#marker{k}#\"\n");
+        if plain {
+            input += &format!("{t}\n");
+        } else {
+            input += &format!("{t}\n\"#marker{k}#\"\n");
+        }
     }
     let Ok(mut child) = std::process::Command::new(&bin)
         .stdin(std::process::Stdio::piped())
@@ -396,6 +403,26 @@ pub(crate) fn check_repl_executable(case: &Json, stats: &mut Stats) -> Verdict {
         c
     };
     stats.label("REPL executable: sessions answered");
+    if plain {
+        stats.label("REPL executable: sessions without marker lines");
+        let answers: Vec<&str> = out.lines().collect();
+        for (k, (text, want)) in texts.iter().zip(&expected).enumerate() {
+            let want = want.as_deref().unwrap_or("");
+            let got = answers.get(k).copied().unwrap_or("<no answer>");
+            let same = if want.contains("struct{") || want.contains('|') { sorted(got) == sorted(want) } else { got == want };
+            if !same {
+                return fail(
+                    "C17:repl-executable:answer",
+                    format!("the REPL executable answers input {k} `{text}` with {got:?}; the embedding route (one interpreter, parse, exec_unscoped, {{:?}}) gives {want:?}; the whole session:\n     {}", texts.join("\n     ")),
+                );
+            }
+        }
+        if answers.len() != texts.len() {
+            return fail("C17:repl-executable:answer", format!("the REPL executable wrote {} lines for the {} inputs of the session\n     {}", answers.len(), texts.len(), texts.join("\n     ")));
+        }
+        stats.nontrivial(&format!("repl-executable {}", texts.join(" ")));
+        return Verdict::Pass;
+    }
     for (k, (text, want)) in texts.iter().zip(&expected).enumerate() {
         let marker = format!("\"#marker{k}#\"\n");
         let history = || texts[..k].join("\n     ");
